@@ -1,4 +1,5 @@
 import Cardutil.Py.Digits
+import Cardutil.Py.Hex
 /-
   Models of `cardutil.pinblock` (ISO 9564 formats 0 and 4, PVV) and `cardutil.key`
   (component combination, KCV, key encryption), generic in the block cipher.
@@ -8,52 +9,11 @@ namespace Cardutil.Pin
 
 open Cardutil Cardutil.Digits
 
-def hexChar (n : Nat) : Nat := if n < 10 then 48 + n else 87 + n
-
-def hexNibble? (c : Nat) : Option Nat :=
-  if 48 ≤ c ∧ c ≤ 57 then some (c - 48)
-  else if 97 ≤ c ∧ c ≤ 102 then some (c - 87)
-  else if 65 ≤ c ∧ c ≤ 70 then some (c - 55)
-  else none
-
-def parseHexText (t : Text) : Option (List Nat) := t.mapM hexNibble?
-
-/-- `int(t, 16)` on plain hex text (no sign / underscore / prefix / whitespace: outside the domain) -/
-def intHex (t : Text) : Outcome Nat :=
-  match parseHexText t with
-  | some (n :: ns) => .ok (fromDigits 16 (n :: ns))
-  | _ => .escape .valueError
-
-/-- minimal base-16 digits of `n` (`format(n, 'x')`), most significant first -/
-def hexMin (n : Nat) : List Nat :=
-  if n < 16 then [n] else hexMin (n / 16) ++ [n % 16]
-termination_by n
-decreasing_by omega
-
-/-- `f'{v:0{w}x}'` as nibbles -/
-def fmtHexW (w v : Nat) : List Nat := if v < 16 ^ w then toDigits 16 w v else hexMin v
-
-/-- `f'{t:{fill}<{w}}'` -/
-def ljust (w fill : Nat) (t : Text) : Text := t ++ List.replicate (w - t.length) fill
-
 /-- `card_number[-13:-1]` -/
 def rightmost12 (pan : Text) : Text := (pan.take (pan.length - 1)).drop (pan.length - 13)
 
 /-- `card_number[-12:-1]` -/
 def rightmost11 (pan : Text) : Text := (pan.take (pan.length - 1)).drop (pan.length - 12)
-
-/-- `binascii.hexlify` as nibbles -/
-def bytesToNibbles (bs : Bytes) : List Nat := bs.flatMap (fun b => [b / 16, b % 16])
-
-def nibblesToBytes : List Nat → Bytes
-  | a :: b :: rest => (16 * a + b) :: nibblesToBytes rest
-  | _ => []
-
-/-- `binascii.unhexlify(text)` -/
-def unhexlify (t : Text) : Outcome Bytes :=
-  match parseHexText t with
-  | some ns => if ns.length % 2 = 0 then .ok (nibblesToBytes ns) else .escape .binasciiError
-  | none => .escape .binasciiError
 
 /-- the PIN-length field: one hex digit for lengths up to 15 (`format(len(pin), 'x')`) -/
 def lenField (pin : Text) : Text := (hexMin pin.length).map hexChar
